@@ -6,6 +6,8 @@
                      in it (finitely many simple paths); or the popped (item, set) pair is skipped when item is in
                      its own set and successors carry set | {item}
 (B) bounded consumption of an iterator defined outside the loop, no growth
+(F) filter at push   only items not in a global V are queued, every popped item is added to V: terminates, but the body
+                     can run more than once for an item that was queued twice before its first pop
 """
 from __future__ import annotations
 import ast
@@ -212,6 +214,23 @@ def classify_while(func, loop):
                 if ok:
                     verdict = ('P', f'every new agenda entry carries `{vs} | {{...}}` and is created only for items not in `{vs}`')
                     info.visited = vs
+        if verdict is None:
+            # (F) filter at push: W.extend(x for x in ... if x not in V), V global, the popped item always added to V.
+            # Terminates (only unvisited items are queued, LIFO/FIFO pops add them) but an item can be queued several
+            # times before its first pop, so the body may run more than once per item.
+            arg = g.args[-1] if isinstance(g, ast.Call) and g.args else None
+            if isinstance(arg, (ast.GeneratorExp, ast.ListComp)) and len(arg.generators) == 1:
+                gen = arg.generators[0]
+                for c in gen.ifs:
+                    ni = _not_in(c, True)
+                    if ni and ni[0] == norm(gen.target) and norm(arg.elt) == ni[0] and ni[1] in outer_sets and ni[1] not in assigned_in_loop:
+                        for st in loop.body:
+                            if isinstance(st, ast.Expr) and isinstance(st.value, ast.Call) and isinstance(st.value.func, ast.Attribute) \
+                                    and st.value.func.attr == 'add' and norm(st.value.func.value) == ni[1] and st.value.args \
+                                    and norm(st.value.args[0]) in popped_names:
+                                verdict = ('F', f'only items not in `{ni[1]}` are queued and every popped item is added to `{ni[1]}` '
+                                                f'(an item may still be queued more than once before its first pop)')
+                                info.visited = ni[1]
         verdicts.append((g, verdict))
     bad = [(g, v) for g, v in verdicts if v is None]
     if bad:
@@ -219,7 +238,7 @@ def classify_while(func, loop):
         info.details['unguarded'] = bad[0][0]
         return info
     kinds = {v[0] for _, v in verdicts}
-    info.idiom = 'G' if kinds == {'G'} else ('P' if 'P' in kinds else 'G')
+    info.idiom = 'G' if kinds == {'G'} else ('P' if 'P' in kinds else 'F' if 'F' in kinds else 'G')
     info.why = '; '.join(sorted({v[1] for _, v in verdicts}))
     return info
 
